@@ -2,10 +2,13 @@
 // leaves: parser::parse (generated LR driver) and cst_to_ast (From impls) - BOUNDED STAND-IN for what Verus cannot ingest of the front end
 // props leaf_parse_acceptance: C09   (parse accepts a token sequence iff an independent recursive-descent recogniser of the published Kiki
 //         grammar accepts it; on rejection it returns the first token that cannot continue any valid file, None when the input stops too early)
+// props leaf_parse_error_span: C09   (generate on source text: Parse(start, exact text, end) of the first token that cannot continue any valid file, the
+//         empty span at the end of the source when the file stops too early, no parse error for a sentence)
 // props leaf_roundtrip_types: C13        (path segments / generic arguments in written order)
 // props leaf_roundtrip_attributes: C12   (attribute lists verbatim, in order, on the declaration they precede)
 // props leaf_roundtrip_declarations: C10 C06   (items, fields, variants in written order: the syntax tree is the file)
 // covers leaf_parse_acceptance: fn parse
+// covers leaf_parse_error_span: fn unexpected_token_or_eof_to_kiki_err, fn start, fn content_len, fn get_unexpected_eof_err
 // bound: acceptance: every sequence of <= 5 token kinds (<= 7 in the thorough tier) (17 kinds; extensions of an already rejected prefix are pruned, the driver stops at the
 //        first error: 5 959 sequences evaluated for 1 508 598), plus the token sequences of all generated texts and each of them with one token
 //        deleted. Round trips (tokenize -> parse -> cst_to_ast == the declarations the text was printed from): 133 payload types of nesting
@@ -169,6 +172,58 @@ mod __vx_leafcheck {
             }
         }
         println!("LEAFCHECK leaf=parser::parse cases={}", n);
+    }
+
+    /// source text of a token kind (multi-byte characters where the lexical rules allow them)
+    fn text_of(k: K, i: usize) -> String {
+        match k {
+            K::Underscore => "_".into(), K::Ident => format!("Ab{}", i % 3), K::TerminalIdent => format!("$Cd{}", i % 2), K::OuterAttribute => "#[a(\u{e9}) = \"\u{2200}\"]".into(),
+            K::StartKw => "start".into(), K::StructKw => "struct".into(), K::EnumKw => "enum".into(), K::TerminalKw => "terminal".into(), K::Colon => ":".into(),
+            K::DoubleColon => "::".into(), K::Comma => ",".into(), K::LParen => "(".into(), K::RParen => ")".into(), K::LCurly => "{".into(), K::RCurly => "}".into(),
+            K::LAngle => "<".into(), K::RAngle => ">".into(),
+        }
+    }
+    #[test]
+    fn leaf_parse_error_span() {
+        use crate::KikiErr;
+        let mut n = 0usize;
+        let mut seq: Vec<K> = vec![];
+        fn go(seq: &mut Vec<K>, depth: usize, n: &mut usize) {
+            let want = recognise(seq);
+            for (lead, sep, trail) in [("", " ", ""), ("// \u{e9}\n", " // \u{2200} start {\n\t", "\n// end")] {
+                let mut src = String::from(lead);
+                let mut spans = vec![];
+                for (i, k) in seq.iter().enumerate() {
+                    // `:` directly before `:` or `::` would fuse; the separators used here never are empty
+                    if i > 0 { src.push_str(sep); }
+                    let t = text_of(*k, i);
+                    spans.push((src.len(), t.clone()));
+                    src.push_str(&t);
+                }
+                src.push_str(trail);
+                let got = crate::generate(&src);
+                let ok = match (&want, &got) {
+                    (Verdict::Accept, Err(KikiErr::Parse(..))) | (Verdict::Accept, Err(KikiErr::Lex(..))) => false,
+                    (Verdict::Accept, _) => true,
+                    (Verdict::ErrorAt(i), Err(KikiErr::Parse(a, t, b))) => a.0 == spans[*i].0 && *t == spans[*i].1 && b.0 == a.0 + t.len(),
+                    (Verdict::NeedMore, Err(KikiErr::Parse(a, t, b))) => a.0 == src.len() && t.is_empty() && b.0 == src.len(),
+                    _ => false,
+                };
+                let want_text = match &want {
+                    Verdict::Accept => "no lexical or parse error (the token sequence is a sentence of the Kiki grammar)".to_string(),
+                    Verdict::ErrorAt(i) => format!("Parse(ByteIndex({}), {:?}, ByteIndex({}))", spans[*i].0, spans[*i].1, spans[*i].0 + spans[*i].1.len()),
+                    Verdict::NeedMore => format!("Parse(ByteIndex({}), \"\", ByteIndex({}))", src.len(), src.len()),
+                };
+                let got_text = match &got { Ok(_) => "Ok".to_string(), Err(e) => format!("{:?}", e).chars().take(200).collect() };
+                assert!(ok, "LEAFCHECK-FAIL leaf=generate(parse-error-span) input={:?} got={} want={}", src, got_text, want_text);
+                *n += 1;
+            }
+            if depth == 0 || matches!(want, Verdict::ErrorAt(_)) { return; }
+            for k in KINDS { seq.push(k); go(seq, depth - 1, n); seq.pop(); }
+        }
+        let depth = if std::env::var("VX_LEAF_THOROUGH").is_ok() { 6 } else { 4 };
+        go(&mut seq, depth, &mut n);
+        println!("LEAFCHECK leaf=generate(parse-error-span) cases={}", n);
     }
 
     // ---------------- generated texts with the declarations they were printed from ----------------
